@@ -3,6 +3,7 @@ Fault enumeration: (fault class) x (route), each cell in a fresh child under the
 import json
 import os
 import shutil
+import threading
 import time
 from concurrent.futures import ThreadPoolExecutor
 
@@ -201,6 +202,11 @@ RATIONALE = [
     ("whitespace_calls_skipping_rule", "Zz3 = 'x';\n@no_skip_ws\nWhitespace = {Zz1};\nZz1 = ' ' | '#' Zz2;\nZz2 = 'c';\n", {}),
     ("char_rule_refers_to_missing_rule", "@char\nZz1 = ZzNope | 'a';\n", {}),
     ("char_rule_refers_to_normal_rule", "@char\nZz1 = Zz2 | 'a';\nZz2 = 'b';\n", {}),
+    ("include_of_missing_rule_long_similar_names", "Zz1 = 'a' >ParameterListOfFunctionWithDefaultsAndAttributes;\nFunctionParameterListWithDefaultsAndAttributes = 'b';\nParameterListOfMethodWithDefaultsAndAttributes = 'c';\n", {}),
+    ("field_of_missing_rule_long_similar_names", "Zz1 = x:TheQuickBrownFoxJumpsOverTheLazyDogAgainAndAgainAndAgain;\nTheLazyDogJumpsOverTheQuickBrownFoxAgainAndAgainAndAgain = 'b';\n", {}),
+    ("override_of_missing_rule_long_similar_names", "Zz1 = @:AnExtremelyLongRuleNameThatGoesOnAndOnAndOnWithoutEnd1 | @:Zz2;\nZz2 = 'b';\nYetAnotherExtremelyLongRuleNameThatGoesOnAndOnWithoutEnd2 = 'c';\n", {}),
+    ("char_rule_refers_to_missing_rule_long_similar_names", "@char\nZz1 = LowercaseLatinLetterOrDigitOrUnderscoreCharacter | 'a';\n@char\nUppercaseLatinLetterOrDigitOrUnderscoreCharacters = 'A'..'Z';\n", {}),
+    ("missing_rule_name_of_300_characters", "Zz1 = x:%s;\n%s = 'b';\n" % ("Ab" * 150, "Ba" * 150), {}),
     ("override_type_starts_with_digit", "Zz1 = @:2;\n2 = 'b';\n", {}),
     ("override_type_starts_with_digit_missing_rule", "Zz1 = 'x' @:9x;\n", {}),
     ("override_type_self", "Zz1 = @:self;\n", {}),
@@ -287,6 +293,13 @@ def execute(cell, d, env, entropy):
         os.symlink(os.path.join(d, "nowhere.ebnf"), gpath)
     elif s == "symlink_loop":
         os.symlink(gpath, gpath)
+    elif s in ("sibling_bad_last", "sibling_bad_first"):
+        # two grammars side by side, one of them broken: whichever the walk meets first, the run must fail
+        names = ("a.ebnf", "b.ebnf") if s == "sibling_bad_last" else ("b.ebnf", "a.ebnf")
+        with open(os.path.join(d, "src", names[0]), "wb") as f:
+            f.write(VALID)
+        with open(os.path.join(d, "src", names[1]), "wb") as f:
+            f.write(cell.grammar)
     elif s in ("nested_invalid", "nested_unreadable_dir", "nested_dangling"):
         with open(gpath, "wb") as f:
             f.write(VALID)
@@ -344,6 +357,19 @@ def execute(cell, d, env, entropy):
         with open(gpath, "wb") as f:
             f.write(cell.grammar)
     c = run_child(argv, d, e, entropy=entropy, faults=faults, shim_log=shim_log, **({"timeout": cell.timeout} if cell.timeout else {}))
+    slow = None
+    if c.timed_out and not cell.timeout:
+        # "slow" is not "hangs": before a silent child is called a hang it gets LONG_TIMEOUT_S once more (the first few of a
+        # run only; a later one is left unjudged, never reported)
+        with _LONG_LOCK:
+            grant = _LONG_BUDGET[0] > 0
+            if grant:
+                _LONG_BUDGET[0] -= 1
+        if not grant:
+            return "unjudged", c, {"status": "timeout", "fired": [], "dest": None, "unjudged": True}
+        t1 = time.time()
+        c = run_child(argv, d, e, entropy=entropy, faults=faults, shim_log=shim_log, timeout=LONG_TIMEOUT_S)
+        slow = round(time.time() - t1, 1)
     if cell.route.startswith("compile") and cell.kind in ("restriction", "syntax", "rationale", "io_read") and not c.crashed():
         # the same run once more in the same directory: whatever the first run left behind must not turn a failure into a success
         c2 = run_child(argv, d, e, entropy=entropy, faults=faults, shim_log=shim_log)
@@ -353,6 +379,8 @@ def execute(cell, d, env, entropy):
             c = c2
     fired = [l for l in c.shim_log if "->" in l and not l.startswith("clock") and not l.startswith("time") and not l.startswith("gettimeofday")]
     info = {"status": c.status_word(), "fired": fired, "dest": None}
+    if slow is not None:
+        info["slow_s"] = slow
     if c.crashed():
         return "crash", c, info
     if cell.route == "lib":
@@ -469,6 +497,14 @@ def build_cells(seed, tier, pool):
     cells.append(Cell("nested_grammar_restriction", "compile_dir", "fail", "io_read", b"@export\n@string\nZz1 = 'a';\n", setup="nested_invalid"))
     cells.append(Cell("nested_grammar_invalid_utf8", "compile_dir", "fail", "io_read", b"Zz1 = 'a';\n# \xff\n", setup="nested_invalid"))
     cells.append(Cell("nested_grammar_dangling_symlink", "compile_dir", "fail", "io_read", setup="nested_dangling"))
+    for fmt in (False, True):
+        sfx = "+format" if fmt else ""
+        for setup in ("sibling_bad_last", "sibling_bad_first", "nested_invalid"):
+            if setup == "nested_invalid" and not fmt:
+                continue
+            cells.append(Cell("%s_syntax_error%s" % (setup, sfx), "compile_dir", "fail", "io_read", b"Zz1 = ('a' ;\n", setup=setup, fmt=fmt))
+            cells.append(Cell("%s_restriction%s" % (setup, sfx), "compile_dir", "fail", "io_read", b"@export\n@string\nZz1 = 'a';\n", setup=setup, fmt=fmt))
+            cells.append(Cell("%s_invalid_utf8%s" % (setup, sfx), "compile_dir", "fail", "io_read", b"Zz1 = 'a';\n# \xff\n", setup=setup, fmt=fmt))
     cells.append(Cell("nested_directory_unreadable", "compile_dir", "fail", "io_read", setup="nested_unreadable_dir", faults="open:/src/locked:0:e13"))
     cells.append(Cell("top_directory_unreadable", "compile_dir", "fail", "io_read", VALID, faults="open:/src:1:e13"))
     # Compile::directory pointed at a grammar file instead of a directory (the walk then has exactly one entry)
@@ -625,6 +661,11 @@ def judge(cell, verdict, info, controls, groups):
     return None
 
 
+LONG_TIMEOUT_S = 300
+_LONG_BUDGET = [8]
+_LONG_LOCK = threading.Lock()
+
+
 def run_cells(cells, seed, d, labels=None):
     results = [None] * len(cells)
 
@@ -686,8 +727,15 @@ def run(tier, seed, replay_path=None):
     fired_cells = set()
     by_kind = {}
     samples = []
+    slow_cells = []
+    unjudged = 0
     for cell, (v, info) in zip(cells, results):
         by_kind[cell.kind] = by_kind.get(cell.kind, 0) + 1
+        if info.get("slow_s") is not None:
+            slow_cells.append({"fault": cell.fault, "route": cell.route, "answered_after_s": info["slow_s"], "status": info["status"]})
+        if v == "unjudged":
+            unjudged += 1
+            continue
         shim_fault = bool(cell.faults)
         if shim_fault:
             if info["fired"]:
@@ -749,6 +797,9 @@ def run(tier, seed, replay_path=None):
                  "errno/short transfer, for content faults the offending text was given to the route; control cells are not counted"),
         "samples": samples,
         "cells_by_kind": by_kind,
+        # children that were silent for the ordinary 20 s and answered when given LONG_TIMEOUT_S (slow, not a hang), and
+        # timeouts beyond the budget of long re-runs that were left unjudged
+        "slow_cells": slow_cells, "unjudged_timeouts": unjudged, "long_timeout_s": LONG_TIMEOUT_S,
         "faults_fired": fired_kinds,
         "routes": ROUTES,
         "runs_per_hour": int(len(cells) / max(wall, 1e-6) * 3600),
